@@ -1740,6 +1740,15 @@ int32_t tls13EncodeResponseServer(ssl_t *ssl, psBuf_t *out, uint32 *requiredLen)
         if (needHelloRetryRequest(ssl))
         {
             psTraceInfo("No acceptable client (EC)DHE share\n");
+            if (ssl->tls13IncorrectDheKeyShare)
+            {
+                /* RFC 8446, 4.1.4 and 4.2.8: the ClientHello that answers
+                   our HelloRetryRequest must contain the requested share;
+                   never send a second HelloRetryRequest. */
+                psTraceErrr("Second ClientHello has no acceptable key share\n");
+                ssl->err = SSL_ALERT_ILLEGAL_PARAMETER;
+                return MATRIXSSL_ERROR;
+            }
             Memset(&ssl->sec.tls13KsState, 0, sizeof(ssl->sec.tls13KsState));
             ssl->sec.tls13UsingPsk = PS_FALSE;
             ssl->extFlags.got_pre_shared_key = 0;
